@@ -122,6 +122,12 @@ pub struct CardData {
     pub ats: Option<String>,
     pub sak: Option<u8>,
     pub track_2: Option<String>,
+    /// the status information of the card also carries these (amount, trace number, ... as after a payment)
+    pub status: Option<StatusFields>,
+    /// ... and a receipt number (BMP 87)
+    pub receipt: Option<u64>,
+    /// TLV 1F0B: maximum pre-authorisation amount the card reports
+    pub max_pre_auth: Option<u64>,
 }
 
 #[derive(Clone, Debug, PartialEq)]
@@ -178,6 +184,11 @@ pub enum FaultKind {
     Unexpected(u8),
     /// not a fault: the terminal pauses this many seconds before this packet and then carries on normally
     Pause(u32),
+    /// the terminal sends this (regular) reply packet and closes the connection at once, before the client's
+    /// acknowledgement can be written: the client notices the loss while *writing*
+    CloseAfter,
+    /// the terminal closes the idle connection before the call starts: the client's next command write fails
+    IdleClose,
 }
 
 /// Well-formed packets a terminal could send; each is a fault only where the reply set does not contain it.
@@ -229,6 +240,8 @@ pub enum At {
     Connect(usize),
     /// every connection attempt
     AnyConnect,
+    /// between the previous call and this one (idle connection)
+    Idle,
 }
 
 #[derive(Clone, Debug, PartialEq)]
@@ -344,6 +357,9 @@ pub struct Shared {
     pub fired: Vec<usize>,
     pub start: tokio::time::Instant,
     pub trace_counter: u64,
+    /// wakes the serving tasks when the terminal closes its idle connections
+    pub kill: Arc<tokio::sync::Notify>,
+    pub kill_epoch: u64,
 }
 
 pub type SharedRef = Arc<Mutex<Shared>>;
@@ -369,6 +385,8 @@ impl Shared {
             fired: vec![],
             start: tokio::time::Instant::now(),
             trace_counter: 975,
+            kill: Arc::new(tokio::sync::Notify::new()),
+            kill_epoch: 0,
         }
     }
     fn now_ms(&self) -> u64 {
@@ -380,7 +398,8 @@ impl Shared {
         self.log.len() - 1
     }
     /// The harness announces the start of the next public call.
-    pub fn begin_call(&mut self) {
+    /// Returns true if the terminal closes its idle connections now (the caller then lets the serving tasks run).
+    pub fn begin_call(&mut self) -> bool {
         self.call += 1;
         self.tx_in_call = 0;
         self.connects_in_call = 0;
@@ -389,6 +408,13 @@ impl Shared {
                 self.dangling = Some(d);
             }
         }
+        let call = self.call;
+        if self.plan.faults.iter().any(|f| f.call == call && f.at == At::Idle) {
+            self.kill_epoch += 1;
+            self.kill.notify_waiters();
+            return true;
+        }
+        false
     }
     fn take_explan(&mut self, cmd: Cmd) -> ExPlan {
         let call = self.call;
@@ -499,6 +525,9 @@ fn status_packet(e: &Enc0, st: &StatusFields, receipt: Option<u64>, card: Option
             }
             if let Some(x) = c.sak {
                 tf.push(("sak", Val::Num(x as u128)));
+            }
+            if let Some(x) = c.max_pre_auth {
+                tf.push(("maximum_pre_autorisation", Val::Num(x as u128)));
             }
             if let Some(list) = &c.subs_on_card {
                 tf.push(("subs_on_card", e.make("packets::tlv::SubsOnCard", &[("subs", subs_val(list))])));
@@ -651,7 +680,7 @@ fn respond(sh: &mut Shared, cmd: Cmd, val: &Val) -> (Vec<Vec<u8>>, u64, Effect) 
             ExResult::Abort(c) | ExResult::AbortWithReceipt(c, _) => out.push(abort(&e, c)),
             _ => {
                 let card = xp.card.clone().unwrap_or(CardData { uid: Some("000000000000081ca72f".into()), ..CardData::default() });
-                out.push(status_packet(&e, &StatusFields::default(), None, Some(&card)));
+                out.push(status_packet(&e, &card.status.clone().unwrap_or_default(), card.receipt, Some(&card)));
             }
         },
     }
@@ -687,6 +716,8 @@ async fn passive(shared: &SharedRef, io: &mut DuplexStream, conn: usize) {
         match io.read(&mut buf).await {
             Ok(0) | Err(_) => {
                 shared.lock().unwrap().ev(conn, Dir::Eof, &[]);
+                // the terminal does not close its side either: whoever waits for that waits forever
+                std::future::pending::<()>().await;
                 return;
             }
             Ok(n) => {
@@ -730,6 +761,9 @@ fn next_tx_action(sh: &mut Shared, cmd: Cmd, reply_idx: usize, conn: usize) -> T
             if f.kind == FaultKind::EmptyCompletion && (cmd != Cmd::SystemInfo || reply_idx != 1 || sh.log.iter().any(|e| e.conn == conn && e.dir == Dir::Vetted)) {
                 continue;
             }
+            if f.kind == FaultKind::CloseAfter && reply_idx == 0 {
+                continue;
+            }
             if let FaultKind::Unexpected(i) = f.kind {
                 if !is_unexpected(&sh.schema, cmd, reply_idx, UNEXPECTED[i as usize % UNEXPECTED.len()]) {
                     continue;
@@ -769,8 +803,25 @@ async fn send(shared: &SharedRef, io: &mut DuplexStream, conn: usize, pkt: &[u8]
 }
 
 async fn serve(shared: SharedRef, mut io: DuplexStream, conn: usize) {
+    let (kill, epoch0) = {
+        let sh = shared.lock().unwrap();
+        (sh.kill.clone(), sh.kill_epoch)
+    };
     loop {
-        let Some(pkt) = read_frame(&mut io).await else {
+        let frame = tokio::select! {
+            biased;
+            _ = kill.notified() => None,
+            f = read_frame(&mut io) => Some(f),
+        };
+        let Some(frame) = frame else {
+            if shared.lock().unwrap().kill_epoch != epoch0 {
+                shared.lock().unwrap().ev(conn, Dir::Fault(FaultKind::IdleClose), &[]);
+                drop(io);
+                return;
+            }
+            continue;
+        };
+        let Some(pkt) = frame else {
             shared.lock().unwrap().ev(conn, Dir::Eof, &[]);
             return;
         };
@@ -833,6 +884,16 @@ async fn serve(shared: SharedRef, mut io: DuplexStream, conn: usize) {
                         shared.lock().unwrap().ev(conn, Dir::Vetted, &[]);
                     }
                 }
+                TxAction::Fault(FaultKind::CloseAfter) => {
+                    let bytes = p.clone();
+                    let _ = send(&shared, &mut io, conn, &bytes).await;
+                    if i + 1 == n {
+                        apply_effect(&mut shared.lock().unwrap(), effect.clone());
+                    }
+                    shared.lock().unwrap().ev(conn, Dir::Fault(FaultKind::CloseAfter), &[]);
+                    drop(io);
+                    return;
+                }
                 TxAction::Fault(kind) => {
                     shared.lock().unwrap().ev(conn, Dir::Fault(kind), &[]);
                     match kind {
@@ -875,7 +936,7 @@ async fn serve(shared: SharedRef, mut io: DuplexStream, conn: usize) {
                         FaultKind::Unexpected(i) => {
                             let _ = io.write_all(UNEXPECTED[i as usize % UNEXPECTED.len()]).await;
                         }
-                        FaultKind::Silence | FaultKind::Refuse | FaultKind::ConnectStall | FaultKind::Pause(_) => {}
+                        FaultKind::Silence | FaultKind::Refuse | FaultKind::ConnectStall | FaultKind::Pause(_) | FaultKind::CloseAfter | FaultKind::IdleClose => {}
                     }
                     passive(&shared, &mut io, conn).await;
                     return;
